@@ -162,7 +162,7 @@ def r_direct(L, a):
 DK = [0, 5, 7, 9]      # -I? -l? -f? /x/lib?.so
 
 
-def ob_direct(nops):
+def ob_direct(nops, DK=DK):
     """append_direct / extend_direct mixed with += and reads: direct arguments keep their place in the order given, absolute paths included"""
     def h():
         real = CA(COMPILER, [])
@@ -381,7 +381,7 @@ def obligations(tier):
         ks = SMALL if n == 3 else [0, 2, 5]
         out.append(Obligation('sequence[%d]' % n, ob_sequence(n, ks), dict(ops=n, kinds=[KINDS[k][0] + '?' + KINDS[k][1] for k in ks]), labels=('end', 'read', 'copy', 'add'), max_paths=6000000))
     for n in ((1, 2) if q else (1, 2, 3)):
-        out.append(Obligation('direct[%d]' % n, ob_direct(n), dict(ops=n, operations='+=, append_direct, extend_direct of 2-3, extend_preserving_lflags of 2, read', kinds='-I? -l? -f? /x/lib?.so (absolute)'),
+        out.append(Obligation('direct[%d]' % n, ob_direct(n, DK if n < 3 else [5, 9]), dict(ops=n, operations='+=, append_direct, extend_direct of 2-3, extend_preserving_lflags of 2, read', kinds='-I? -l? -f? /x/lib?.so (absolute)' if n < 3 else '-l? /x/lib?.so (absolute)'),
                               labels=('end', 'extend_direct', 'preserving_lflags') + (('read',) if n > 1 else ()), max_paths=6000000))
     shapes = [(1, 1, 1, 1), (1, 2, 1, 1), (1, 1, 2, 1), (0, 1, 1, 2)] if q else [(1, 1, 1, 1), (1, 2, 1, 1), (1, 1, 2, 1), (0, 1, 1, 2), (2, 1, 1, 1), (1, 2, 2, 1), (1, 1, 1, 2), (2, 2, 2, 1)]
     for s in shapes:
